@@ -395,20 +395,22 @@ def array_rules(run, F, E):
     for fn in F.find('StaticArrayT', 'fill'):
         ext = storage_extent(F, fn, '_items')
         sm = summary(fn, [Opaque('arg')], {}, ('_items',))
-        idx = sorted(i for a, i, v in sm.stores if isinstance(i, int))
-        ok = idx == list(range(ext)) and len(sm.stores) == ext and all(a == '_items' and v == Opaque('arg') for a, i, v in sm.stores)
+        st_ = sm.stores if isinstance(sm.stores, list) else []
+        idx = sorted(i for a, i, v in st_ if isinstance(i, int))
+        ok = idx == list(range(ext)) and len(st_) == ext and all(a == '_items' and v == Opaque('arg') for a, i, v in st_)
         run.ob('C20.c', 'StaticArrayT::fill(v) stores v in each of the %d elements, once' % ext, ok, where=fn.pat,
-               detail=None if ok else {'stores': repr(sm.stores[:6]), 'extent': ext}, key='StaticArrayT::fill assigns the wrong value')
+               detail=None if ok else {'stores': repr(st_[:6]), 'extent': ext}, key='StaticArrayT::fill assigns the wrong value')
     for fn in F.find('StaticArrayT', 'clear'):
         ext = storage_extent(F, fn, '_items')
         sm = summary(fn, [], {}, ('_items',))
-        idx = sorted(i for a, i, v in sm.stores if isinstance(i, int))
-        vals = set(v for a, i, v in sm.stores)
+        st_ = sm.stores if isinstance(sm.stores, list) else []
+        idx = sorted(i for a, i, v in st_ if isinstance(i, int))
+        vals = set(v for a, i, v in st_)
         ok = idx == list(range(ext)) and len(vals) == 1
         if ok:
             filler_of[fn.cls] = next(iter(vals))
         run.ob('C20.c', 'StaticArrayT::clear() stores one and the same filler in each of the %d elements' % ext, ok, where=fn.pat,
-               detail=None if ok else {'stores': repr(sm.stores[:6])}, key='StaticArrayT::clear does not fill with the filler')
+               detail=None if ok else {'stores': repr(st_[:6])}, key='StaticArrayT::clear does not fill with the filler')
     for fn in F.find('StaticArrayT', 'empty'):
         ext = storage_extent(F, fn, '_items')
         try:
@@ -444,7 +446,7 @@ def array_rules(run, F, E):
             # whatever the spelling: the one store goes to slot <entry count> and carries the argument, the count ends at <entry count> + 1;
             # emplace returns the old count, += returns the array
             sm = summary(fn, [Opaque('arg')])
-            ok = len(sm.stores) == 1 and sm.stores[0][0] == '_items' and sm.stores[0][1] == Sym('count') and mentions(sm.stores[0][2], Opaque('arg')) and \
+            ok = isinstance(sm.stores, list) and len(sm.stores) == 1 and sm.stores[0][0] == '_items' and sm.stores[0][1] == Sym('count') and mentions(sm.stores[0][2], Opaque('arg')) and \
                 sm.fields.get('_count') == Sym('count', 1) and sm.ret == (Sym('count') if fn.m == 'emplace' else ('this',))
             run.ob('C20.c', 'DynamicArrayT::%s constructs the argument in slot <count>, leaves count + 1 and returns %s' % (fn.m, 'the old count' if fn.m == 'emplace' else 'the array'),
                    ok, where=fn.pat, detail=None if ok else {'stores': repr(sm.stores), 'count afterwards': repr(sm.fields.get('_count')), 'returns': repr(sm.ret)},
